@@ -515,7 +515,7 @@ func runC02(c *Ctx) {
 	checkReplyChanConsumers(c, fns)
 
 	// ---------------------------------------------------------------- R12
-	c.rule("R12", "a registered waiter stays registered until its exchange returns (removed only by deferred calls; registered once)", 2)
+	c.rule("R12", "a registered waiter stays registered until its exchange returns (removed only by deferred calls; registered once; the table is never emptied)", 3)
 	{
 		var ins *ssa.Function
 		for _, w := range p.whoWrites().byField[relTransport+".TraditionalDnsConn.queue"] {
@@ -538,6 +538,7 @@ func runC02(c *Ctx) {
 	checkErrorExitWaitsForReader(c)
 	checkClaimedReplyDelivered(c)
 	checkCtxCasePollsResult(c)
+	checkNoDeadlineAfterRelease(c)
 	if ex := c.fn(relTransport, "TraditionalDnsConn", "exchange"); ex != nil {
 		// D38: a flag set for a query that was answered during its send closes the connection under the next query's reply
 		lfA := p.newLockFacts()
